@@ -318,6 +318,15 @@ Section Fij.
     mk_track raws = Ok t0 -> run dist merge t0 ops = Ok t -> chron t.
   Proof. intros H1 H2. eapply run_chron; [|exact H2]. eapply mk_sorted; eauto. Qed.
 
+  Lemma slice_open_empty_refuted : exists dist merge raws ops t0 t,
+    mk_track raws = Ok t0 /\ raws <> [] /\ run dist merge t0 ops = Ok t /\
+    slice t None None <> Ok (filter (fun _ => true) t).
+  Proof.
+    exists (fun _ _ => 0%Q), (fun _ => 0), [Timed (mkitem 0 5 5 0 0 0)], [OSlice (Some 10) (Some 20)],
+           [mkitem 0 5 5 0 0 0], [].
+    split; [reflexivity|]. split; [discriminate|]. split; [reflexivity|]. discriminate.
+  Qed.
+
   (* slices, filters and the speed filter never reorder: the result is a sublist of the source *)
   Definition selecting (o : op) : bool :=
     match o with OAdd _ | OAddOther | OConvolve => false | _ => true end.
